@@ -48,8 +48,8 @@ def build():
         'checks': checks,
         'notes': 'Every check imports cardutil from /repo working tree (VERIF_REPO overrides for self-tests), honours VERIF_SEED '
                  'and VERIF_TIER, exits 0 held / 1 VIOLATION / 2 INCONCLUSIVE. Known findings: known_findings.json. In every check '
-                 'four of the sixteen shards run their slice of all case classes in another environment: cardutil logging at '
-                 'DEBUG, an interpreter started with -bb, one started with -O, and a time zone with daylight saving '
+                 'three of the sixteen shards run their slice of all case classes in another environment: cardutil logging at '
+                 'DEBUG, an interpreter started with -O, and a time zone with daylight saving '
                  '(DESIGN.md section 2.3); witnesses carry the environment and are replayed in it.',
         'not_applicable': na,
     }
